@@ -624,8 +624,12 @@ fn state_models(st: &mut Stats, tier: Tier) {
                 }
                 // route 4: SearchApp::build_search_instance: k configured + (n-k) model features + a query override of one model feature
                 if *stride == 1 || tier == Tier::Thorough {
-                    for k in [0usize, n / 2] {
+                    for (k, other_unit) in [(0usize, false), (n / 2, false), (0, true), (n / 2, true)] {
                         if n == 0 {
+                            continue;
+                        }
+                        // the override may also name another unit of the same kind (the next one in the unit list)
+                        if other_unit && !matches!(&feats[n - 1], Feat::Dist(..) | Feat::Time(..) | Feat::Energy(..)) {
                             continue;
                         }
                         st.evaluations += 1;
@@ -638,10 +642,14 @@ fn state_models(st: &mut Stats, tier: Tier) {
                         let last = n - 1;
                         let mut query = json!({});
                         if last >= k {
+                            fn next<T: PartialEq + Copy>(all: &[T], u: &T, other: bool) -> T {
+                                let i = all.iter().position(|x| x == u).unwrap_or(0);
+                                all[(i + other as usize) % all.len()]
+                            }
                             let overridden = match &feats[last] {
-                                Feat::Dist(u, _) => Feat::Dist(*u, 99.0),
-                                Feat::Time(u, _) => Feat::Time(*u, 99.0),
-                                Feat::Energy(u, _) => Feat::Energy(*u, 99.0),
+                                Feat::Dist(u, _) => Feat::Dist(next(&crate::refmodel::units::DISTANCE_UNITS, u, other_unit), 99.0),
+                                Feat::Time(u, _) => Feat::Time(next(&crate::refmodel::units::TIME_UNITS, u, other_unit), 99.0),
+                                Feat::Energy(u, _) => Feat::Energy(next(&crate::refmodel::units::ENERGY_UNITS, u, other_unit), 99.0),
                                 Feat::F64(_) => Feat::F64(99.0),
                                 Feat::I64(_) => Feat::I64(99),
                                 Feat::U64(_) => Feat::U64(99),
